@@ -66,6 +66,17 @@ def run(ctx):
                     src = "replace %s %s with '<' value '>' matchNumber" % (ctext, b)
                 cases.append({"src": src, "texts": texts})
                 meta.append((b, kind, ctext, spec))
+    # long match sequences: the window bookkeeping (a sliding queue for `last`) must not depend on how many matches there are
+    long_lens = list(range(30, 75)) + [99, 100, 127, 128, 129, 130, 131] + ([] if quick else list(range(75, 99)) + list(range(132, 200)) + [255, 256, 257, 300])
+    long_texts = ["a" * L for L in long_lens] + ["ab" * (L // 2) for L in long_lens[::3]]
+    long_cls = [("all", None)] + [("last %d" % n, ("last", n, None)) for n in (1, 2, 3, 5, 8, 16, 31, 32, 33, 40, 64)] + \
+               [("skip %d take %d" % (a, b), ("take", a, b)) for a, b in ((0, 33), (31, 2), (32, 1), (33, 40), (64, 64))] + [("skip 40", ("skip", 40, None))]
+    for b in ("'a'", "'ab' or 'a'"):
+        for kind in ("find", "replace"):
+            for ctext, spec in long_cls:
+                src = ("find %s %s" % (ctext, b)) if kind == "find" else ("replace %s %s with '<' value '>' matchNumber" % (ctext, b))
+                cases.append({"src": src, "texts": long_texts})
+                meta.append((b + " (long)", kind, ctext, spec))
     gres, dis, stats = corr_core.run_core(cases, shards=12)
     # index of the `all` case per (body, kind)
     base = {}
@@ -79,7 +90,7 @@ def run(ctx):
         gb = gres[base[(b, kind)]]
         if "matches_list" not in gi or "matches_list" not in gb:
             continue
-        for ti, t in enumerate(texts):
+        for ti, t in enumerate(cases[i]["texts"]):
             if ti >= len(gi["matches_list"]) or ti >= len(gb["matches_list"]):
                 break
             A = parse_matches(gb["matches_list"][ti])
@@ -97,7 +108,7 @@ def run(ctx):
     ctx.coverage["evaluations"] = evals
     ctx.coverage["distinct_nontrivial"] = len(nontrivial)
     ctx.coverage["rule"] = ("bodies whose matches can overlap (fixed list + generated) x texts (all strings over {a,b} up to a length + long ones) "
-                            "x every amount clause with s,t,n in 0..K, find and replace; non-trivial = distinct (body,kind,clause,text) with |A| >= 2")
+                            "x every amount clause with s,t,n in 0..K, find and replace; texts with 30..131 (thorough: ..300) matches x last/skip/take with amounts up to 64; non-trivial = distinct (body,kind,clause,text) with |A| >= 2")
     ctx.coverage["exhaustive"] = not quick
     ctx.coverage["model_agreement"] = stats
     ctx.sample({"source": cases[1]["src"], "text": texts[7]})
